@@ -1,10 +1,25 @@
 """Rate limiters: RateLimitedEntity with every policy (token bucket, leaky bucket, fixed window, sliding window,
-adaptive AIMD) and a small bounded queue, Inductor, NullRateLimiter and DistributedRateLimiter instances sharing
-a KVStore with non-zero latency. Load exceeds the limit: grid-rate sources whose arrivals fall exactly on
-window boundaries, Poisson sources, and same-instant bursts scheduled on window boundaries."""
+adaptive AIMD) and a bounded / unbounded / zero-capacity queue, Inductor, NullRateLimiter and
+DistributedRateLimiter instances sharing a KVStore with (possibly zero) latency. Load exceeds the limit:
+grid-rate sources whose arrivals fall exactly on window boundaries, Poisson sources, same-instant bursts
+scheduled on window boundaries, burst "echoes" a few microseconds later.
+
+Coverage notes (widened):
+  * every constructor parameter of every policy / limiter is drawn (TokenBucket capacity incl. fractional,
+    initial_tokens below / at / above capacity; AdaptivePolicy min/max rate, increase_step (None, 0, small,
+    large), decrease_factor near 0 and near 1, window so small that rate * window < 1; Inductor time constant
+    0 .. seconds; DistributedRateLimiter global_limit, local_threshold near 0 .. 1, 1-4 instances);
+  * every RateAdjustmentReason is fed back to adaptive policies;
+  * windows / time constants / store latencies with `dur_ms` (lossy values, sub-ms decimals, > 1 s);
+  * a "bank" option: one lane of EVERY kind in one scenario, fed in parallel;
+  * sustained overload (up to 2 x 1000 req/s against limits of a few req/s) into bounded, zero and effectively
+    unbounded queues; rates from 0.5/s (no grant within the run after the first) to 10000/s.
+No hard-coded size constants in rate_limiter/*.py besides the default queue capacities (1000 / 10000), which the
+"unbounded" setting (100000) exceeds and sustained overload with qcap 1000 reaches.
+"""
 from __future__ import annotations
 
-from hv.scenarios.base import T, seed_all, stats_of
+from hv.scenarios.base import T, dur_ms, seed_all, stats_of
 
 NAME = "ratelimit"
 MODEL = "C10"
@@ -17,49 +32,68 @@ WINDOWS_MS = [100, 200, 250, 500, 1000, 70, 290, 330]   # 0.29 s is 289999999 ns
 
 
 def _stage(rng, kind):
+    rate = rng.choice([0.5, 2.5, 3, 5, 7, 10, 20, 30, 50, 333, 1000, 10000])
+    cap = rng.choice([1, 1, 2, 3, 5, 1.5, 50])
     return {
         "kind": kind,
-        "qcap": rng.choice([1, 2, 5, 20, 200]),
-        "capacity": rng.randint(1, 5),
-        "rate": rng.choice([3, 5, 7, 10, 20, 30, 50, 333, 1000]),
-        "init_tokens": rng.choice([-1, 0, 1]),            # -1 = default (full bucket)
-        "window_ms": rng.choice(WINDOWS_MS),
-        "max_req": rng.randint(1, 10),
-        "tau_ms": rng.choice([50, 200, 1000]),
-        "dec_pct": rng.choice([50, 80]),
-        "fail_every": rng.choice([0, 3, 7]),               # adaptive feedback: every n-th delivery is a failure
-        "instances": rng.randint(2, 3),                    # distributed
-        "store_ms": [rng.randint(1, 5), rng.randint(1, 5)],
-        "threshold_pct": rng.choice([50, 80, 100]),
+        "qcap": rng.choice([0, 1, 2, 5, 20, 200, 1000, 100000]),
+        "capacity": cap,
+        "rate": rate,
+        "init_tokens": rng.choice([-1, -1, 0, 1, 0.5, cap + 2]),     # -1 = default (full bucket)
+        "window_ms": rng.choice(WINDOWS_MS) if rng.random() < 0.4 else dur_ms(rng, 5, rng.choice([300, 1500])),
+        "max_req": rng.choice([1, 2, 3, 5, 8, 10, 100]),
+        "tau_ms": dur_ms(rng, 1, rng.choice([200, 1000, 5000]), zero=True),
+        "dec_pct": rng.choice([1, 50, 80, 99]),
+        "inc_step_x10": rng.choice([-1, -1, 0, 5, 50, 1000]),        # -1 = default (initial_rate / 10)
+        "min_rate_x10": rng.choice([1, 10, 10, 25]),                 # AdaptivePolicy.min_rate * 10
+        "max_rate_mult": rng.choice([1, 2, 2, 100]),                 # max_rate = max(rate, min_rate) * this
+        "fail_every": rng.choice([0, 1, 3, 7]),               # adaptive feedback: every n-th delivery is a failure
+        "instances": rng.randint(1, 4),                    # distributed
+        "store_ms": [dur_ms(rng, 0.5, 8, zero=True), dur_ms(rng, 0.5, rng.choice([8, 120]), zero=True)],
+        "threshold_pct": rng.choice([1, 50, 80, 100]),
+        "glimit": rng.choice([1, 2, 6, 20, 200]),                    # DistributedRateLimiter.global_limit
+    }
+
+
+def _lane(rng, kind, overload):
+    stages = [_stage(rng, kind)]
+    if kind != "distributed" and rng.random() < 0.3:
+        stages.insert(0, _stage(rng, rng.choice(["null", "inductor", "token"])))
+    window_ms = stages[-1]["window_ms"]
+    bursts = []
+    for _b in range(rng.randint(0, 3)):
+        # on a window boundary of the limiter (or just before / after it)
+        t = int(window_ms * rng.randint(1, max(1, int(1800 // window_ms)))) + rng.choice([0, 0, 0, -1, 1])
+        if rng.random() < 0.3:
+            t = rng.randint(1, 9)        # before the first source arrival: the burst is the limiter's first input
+        bursts.append([max(1, t), rng.choice([2, 3, 8, 25])])
+    return {
+        "stages": stages,
+        "sources": [{"rate": rng.choice([300, 1000] if overload else [10, 20, 40, 50, 100]),
+                     "poisson": rng.random() < 0.35} for _ in range(rng.randint(1, 2))],
+        "bursts": bursts,
+        # every burst is repeated this many microseconds later (0 = no echo)
+        "echo_us": rng.choice([0, 0, 0, 0, 0, 0, 0, 0, 0, 1, 10, 100]),
     }
 
 
 def gen_cfg(rng):
+    long_run = rng.random() < 0.12
+    overload = (not long_run) and rng.random() < 0.3
     lanes = []
-    # the distributed limiter is confined to ~1/3 of the configurations so that its (reported) past-time
-    # forwards do not mask what the other limiters do
-    with_dist = rng.random() < 0.35
-    n_lanes = rng.randint(3, 5)
-    for i in range(n_lanes):
-        kind = rng.choice(KINDS[:-1])
-        if with_dist and i == 0:
-            kind = "distributed"
-        stages = [_stage(rng, kind)]
-        if kind != "distributed" and rng.random() < 0.3:
-            stages.insert(0, _stage(rng, rng.choice(["null", "inductor", "token"])))
-        window_ms = stages[-1]["window_ms"]
-        bursts = []
-        for _b in range(rng.randint(0, 3)):
-            # on a window boundary of the limiter (or just before / after it)
-            t = window_ms * rng.randint(1, max(1, 1800 // window_ms)) + rng.choice([0, 0, 0, -1, 1])
-            bursts.append([t, rng.randint(3, 25)])
-        lanes.append({
-            "stages": stages,
-            "sources": [{"rate": rng.choice([10, 20, 40, 50, 100]), "poisson": rng.random() < 0.35}
-                        for _ in range(rng.randint(1, 2))],
-            "bursts": bursts,
-        })
-    return {"lanes": lanes, "end": rng.choice([2.0, 3.0, 4.0])}
+    if rng.random() < 0.5:
+        # bank: every kind once
+        for kind in KINDS:
+            lanes.append(_lane(rng, kind, overload and rng.random() < 0.3))
+    else:
+        with_dist = rng.random() < 0.5
+        n_lanes = rng.randint(3, 5)
+        for i in range(n_lanes):
+            kind = rng.choice(KINDS[:-1])
+            if with_dist and i == 0:
+                kind = "distributed"
+            lanes.append(_lane(rng, kind, overload and rng.random() < 0.5))
+    return {"lanes": lanes, "end": rng.choice([8.0, 10.0]) if long_run else rng.choice([2.0, 3.0, 4.0, 2.05, 3.003])}
 
 
 def _policy(st):
@@ -77,7 +111,13 @@ def _policy(st):
         return SlidingWindowPolicy(window_size_seconds=w, max_requests=st["max_req"])
     if k == "fixed":
         return FixedWindowPolicy(requests_per_window=st["max_req"], window_size=w)
-    return AdaptivePolicy(initial_rate=float(st["rate"]), min_rate=1.0, max_rate=max(100.0, 2.0 * st["rate"]),
+    if "min_rate_x10" not in st:                                     # corpus cfgs of the old shape
+        return AdaptivePolicy(initial_rate=float(st["rate"]), min_rate=1.0, max_rate=max(100.0, 2.0 * st["rate"]),
+                              decrease_factor=st["dec_pct"] / 100.0, window_size=w)
+    mn = st["min_rate_x10"] / 10.0
+    init = max(mn, float(st["rate"]))
+    step = None if st["inc_step_x10"] < 0 else st["inc_step_x10"] / 10.0
+    return AdaptivePolicy(initial_rate=init, min_rate=mn, max_rate=init * st["max_rate_mult"], increase_step=step,
                           decrease_factor=st["dec_pct"] / 100.0, window_size=w)
 
 
@@ -90,7 +130,7 @@ def build(cfg, seed):
     from happysimulator.components.common import Sink
     from happysimulator.components.datastore import KVStore
     from happysimulator.components.rate_limiter import (DistributedRateLimiter, Inductor, NullRateLimiter,
-                                                       RateLimitedEntity)
+                                                       RateAdjustmentReason, RateLimitedEntity)
     from happysimulator.core.entity import Entity
     from happysimulator.core.event import Event
     from happysimulator.core.simulation import Simulation
@@ -103,10 +143,11 @@ def build(cfg, seed):
     class FeedbackSink(Entity):
         """terminal consumer; reports success / failure to adaptive policies"""
 
-        def __init__(self, name, policies, fail_every):
+        def __init__(self, name, policies, fail_every, reasons):
             super().__init__(name)
-            self.policies, self.fail_every = policies, fail_every
+            self.policies, self.fail_every, self.reasons = policies, fail_every, reasons
             self.n = 0
+            self.nfail = 0
             self.types = {}
             self.keys = {}
             self.first = []
@@ -120,7 +161,11 @@ def build(cfg, seed):
                 self.first.append([self.now.nanoseconds, event.context.get("request_id", -1)])
             for p in self.policies:
                 if self.fail_every and self.n % self.fail_every == 0:
-                    p.record_failure(self.now)
+                    self.nfail += 1
+                    if self.reasons:
+                        p.record_failure(self.now, reasons[self.nfail % len(reasons)])
+                    else:
+                        p.record_failure(self.now)
                 else:
                     p.record_success(self.now)
             return None
@@ -129,11 +174,12 @@ def build(cfg, seed):
             return {"n": self.n, "types": dict(self.types), "keys": dict(self.keys), "first": list(self.first)}
 
     entities, sources, obs, pre = [], [], {}, []
+    reasons = [RateAdjustmentReason.FAILURE, RateAdjustmentReason.TIMEOUT, RateAdjustmentReason.THROTTLED]
 
     for li, lane in enumerate(cfg["lanes"]):
         adaptive = []
         last = lane["stages"][-1]
-        fsink = FeedbackSink(f"l{li}.sink", adaptive, last["fail_every"])
+        fsink = FeedbackSink(f"l{li}.sink", adaptive, last["fail_every"], "min_rate_x10" in last)
         lat_sink = Sink(f"l{li}.latsink")
         entities += [fsink, lat_sink]
         obs[fsink.name] = fsink.stats
@@ -162,7 +208,7 @@ def build(cfg, seed):
                 for ii in range(st["instances"]):
                     tgt = down if ii % 2 == 0 else lat_sink
                     d = DistributedRateLimiter(f"{nm}.n{ii}", downstream=tgt, backing_store=store,
-                                               global_limit=st["max_req"] * 2, window_size=st["window_ms"] / 1000.0,
+                                               global_limit=st.get("glimit", st["max_req"] * 2), window_size=st["window_ms"] / 1000.0,
                                                key_prefix=f"rl-lane{li}", local_threshold=st["threshold_pct"] / 100.0)
                     insts.append(d)
                     entities.append(d)
@@ -185,7 +231,11 @@ def build(cfg, seed):
                     if kind in ("token", "adaptive"):
                         d["tokens"] = p.tokens
                     if kind == "adaptive":
-                        d.update({"rate": p.current_rate, "succ": p.successes, "fail": p.failures,
+                        d.update({"rate": p.current_rate, "succ": p.successes, "fail": p.failures, "to": p.timeouts,
+                                  "nhist": len(p.rate_history),
+                                  "by_reason": [sum(1 for s in p.rate_history if s.reason == r) for r in
+                                                (RateAdjustmentReason.SUCCESS, RateAdjustmentReason.FAILURE,
+                                                 RateAdjustmentReason.TIMEOUT, RateAdjustmentReason.THROTTLED)],
                                   "inc": p.rate_increases, "dec": p.rate_decreases,
                                   "hist": [[s.time.nanoseconds, s.rate, s.reason.name] for s in p.rate_history[-4:]]})
                     return d
@@ -207,15 +257,17 @@ def build(cfg, seed):
             src = mk(rate=sc["rate"], name=f"l{li}.src{si}",
                      event_provider=SimpleEventProvider(head, f"Req{li}", stop, context_fn=ctx))
             sources.append(src)
+        echo_ns = lane.get("echo_us", 0) * 1000
         for bi, (t_ms, n) in enumerate(lane["bursts"]):
             if t_ms / 1000.0 >= end:
                 continue
-            for j in range(n):
-                head = heads[j % len(heads)]
-                at = Instant(t_ms * 1_000_000)   # exact, no float rounding: really on the boundary
-                pre.append(Event(time=at, event_type=f"Burst{li}", target=head,
-                                 context={"created_at": at, "request_id": 100000 + bi * 100 + j,
-                                          "key": f"k{j % 5}"}))
+            for rep, off in enumerate([0, echo_ns] if echo_ns else [0]):
+                for j in range(n):
+                    head = heads[j % len(heads)]
+                    at = Instant(t_ms * 1_000_000 + off)   # exact, no float rounding: really on the boundary
+                    pre.append(Event(time=at, event_type=f"Burst{li}", target=head,
+                                     context={"created_at": at, "request_id": 100000 + rep * 10000 + bi * 100 + j,
+                                              "key": f"k{j % 5}"}))
 
     sim = Simulation(end_time=T(end), sources=sources, entities=entities)
     for e in pre:
